@@ -150,7 +150,7 @@ func Load(cfg LoadConfig) (*Program, error) {
 		MaxSymIndex:   512,
 		AllocEnumMax:  48,
 		MaxPreempt:    3,
-		MaxThreads:    6,
+		MaxThreads:    16,
 		YieldFields:   map[string]bool{},
 		SkipInit:      map[string]bool{},
 		Threaded:      map[string]bool{},
